@@ -589,7 +589,7 @@ static struct iauth_module iauth_xquery = {
     .x_unlinked = iauth_xquery_x_unlinked,
 };
 
-static void iauth_xquery_config_service(const char *name, const char *type)
+static void iauth_xquery_config_service(const char *name, const char *type, int add)
 {
     struct iauth_xquery_service *srv = NULL;
     unsigned int ii;
@@ -603,21 +603,30 @@ static void iauth_xquery_config_service(const char *name, const char *type)
 
     /* If not, add it. */
     if (ii == iauth_xquery_services.used) {
+        if (!add)
+            return;
+
+        /* Try to insert it in an empty slot. */
+        for (ii = 0; ii < iauth_xquery_services.used; ++ii)
+            if (!iauth_xquery_services.vec[ii])
+                break;
+
+        /* Each slot owns one bit of the per-client masks. */
+        if (ii >= 32) {
+            log_message(iauth_xquery_log, LOG_ERROR,
+                        "Too many XQUERY services in use; ignoring %s", name);
+            return;
+        }
+
         stats.n_srv_allocs++;
         srv = xmalloc(sizeof(*srv) + strlen(name));
         strcpy(srv->name, name);
 
-        /* Try to insert it in an empty slot. */
-        for (ii = 0; ii < iauth_xquery_services.used; ++ii) {
-            if (!iauth_xquery_services.vec[ii]) {
-                iauth_xquery_services.vec[ii] = srv;
-                break;
-            }
-        }
-
         /* If there are no empty slots, append it. */
         if (ii == iauth_xquery_services.used)
             iauth_xquery_services_append(&iauth_xquery_services, srv);
+        else
+            iauth_xquery_services.vec[ii] = srv;
     }
 
     /* Look up the type of the service. */
@@ -650,6 +659,7 @@ static void iauth_xquery_services_changed(struct conf_node_base *node)
     struct iauth_xquery_service *srv;
     struct set_node *jj;
     unsigned int ii;
+    int add;
 
     if (node == &conf.root->base) {
         /* Mark all services as unconfigured. */
@@ -659,24 +669,29 @@ static void iauth_xquery_services_changed(struct conf_node_base *node)
                 srv->configured = 0;
         }
 
-        /* Mark each named service as configured. */
-        for (jj = set_first(&conf.root->contents); jj != NULL; jj = set_next(jj)) {
-            struct conf_node_base *base = set_node_data(jj);
+        /* Mark each named service as configured: first the ones we
+         * already have, so that the slots of those that are gone are
+         * free when the new ones are added.
+         */
+        for (add = 0; add < 2; ++add) {
+            for (jj = set_first(&conf.root->contents); jj != NULL; jj = set_next(jj)) {
+                struct conf_node_base *base = set_node_data(jj);
 
-            /* Make sure we hear about changes to the entry's value. */
-            if (!base->hook)
-                base->hook = iauth_xquery_service_changed;
+                /* Make sure we hear about changes to the entry's value. */
+                if (!base->hook)
+                    base->hook = iauth_xquery_service_changed;
 
-            if (base->type == CONF_STRING) {
-                struct conf_node_string *str = set_node_data(jj);
-                if (str->value)
-                    iauth_xquery_config_service(str->base.name, str->value);
-            } /* else unknown type */
+                if (base->type == CONF_STRING) {
+                    struct conf_node_string *str = set_node_data(jj);
+                    if (str->value)
+                        iauth_xquery_config_service(str->base.name, str->value, add);
+                } /* else unknown type */
+            }
+
+            /* Check for unreferenced services. */
+            for (ii = 0; ii < iauth_xquery_services.used; ++ii)
+                iauth_xquery_unref(ii);
         }
-
-        /* Check for unreferenced services. */
-        for (ii = 0; ii < iauth_xquery_services.used; ++ii)
-            iauth_xquery_unref(ii);
     }
 }
 
